@@ -38,6 +38,9 @@ template <typename E> auto R(E e) -> typename std::enable_if<std::is_enum<E>::va
 template <typename X> std::string R(const std::optional<X>& o) { return o.has_value() ? "some:" + R(o.value()) : "none"; }
 template <typename Q> auto R(const Q& q) -> decltype(R(q.Value())) { return R(q.Value()); }
 
+#define C19_ONE_UNIT(U, I) one(PhQ::Unit::U{});
+#define C19_ONE_QUANTITY(Q, I) s += PhQ::Q<T>::Zero().Print() + PhQ::Q<T>::Zero().JSON() + ";";
+
 // Probe: defined before every user object of this translation unit; records whether the library's
 // tables are already populated when user initialisation starts (written at once to stderr so that it
 // survives a crash before main).
@@ -104,11 +107,40 @@ FACILITIES = [
      "return c19::R(m.Stress(e).Value()) + m.Print(); }()", False),
 ]
 
+# facilities that sweep whole type lists (generated headers allu.hpp / allq.hpp are on the include path)
+_ALL_UNITS = (
+    "[]{ std::string s; "
+    "auto one = [&s](auto u) { using U = decltype(u); try { "
+    "s += std::string(PhQ::Abbreviation(PhQ::Standard<U>)) + \"|\" + c19::R(PhQ::ParseEnumeration<U>(PhQ::Abbreviation(PhQ::Standard<U>))) + \"|\"; "
+    "for (const PhQ::UnitSystem sys : {PhQ::UnitSystem::MetreKilogramSecondKelvin, PhQ::UnitSystem::MillimetreGramSecondKelvin, "
+    "PhQ::UnitSystem::FootPoundSecondRankine, PhQ::UnitSystem::InchPoundSecondRankine}) s += c19::R(PhQ::ConsistentUnit<U>(sys)) + \",\"; "
+    "s += c19::R(PhQ::RelatedUnitSystem(PhQ::Standard<U>)) + \"|\" + PhQ::RelatedDimensions<U>.Print() + \";\"; "
+    "} catch (const std::exception& e) { s += std::string(\"throw:\") + e.what() + \";\"; } }; "
+    "VERIF_UNIT_TYPES(C19_ONE_UNIT) return s + c19::R(static_cast<T>(1)); }()")
+_ALL_QUANTITIES = (
+    "[]{ std::string s; VERIF_QUANTITIES(C19_ONE_QUANTITY) return s; }()")
+
+FACILITIES += [
+    ("all-unit-type-tables", ["@allu.hpp"], _ALL_UNITS, False),
+    ("all-quantity-print-json", ["@allq.hpp"], _ALL_QUANTITIES, False),
+    ("constitutive-model-serialise", ["ConstitutiveModel/ElasticIsotropicSolid", "ConstitutiveModel/CompressibleNewtonianFluid",
+                                      "ConstitutiveModel/IncompressibleNewtonianFluid"],
+     "[]{ const typename PhQ::ConstitutiveModel::template ElasticIsotropicSolid<T> m(PhQ::ShearModulus<T>::template Create<PhQ::Unit::Pressure::Pascal>(static_cast<T>(8.0e10)), "
+     "PhQ::LameFirstModulus<T>::template Create<PhQ::Unit::Pressure::Pascal>(static_cast<T>(1.2e11))); "
+     "const typename PhQ::ConstitutiveModel::template CompressibleNewtonianFluid<T> c(PhQ::DynamicViscosity<T>::template Create<PhQ::Unit::DynamicViscosity::PascalSecond>(static_cast<T>(1.5e-3))); "
+     "const typename PhQ::ConstitutiveModel::template IncompressibleNewtonianFluid<T> i(PhQ::DynamicViscosity<T>::template Create<PhQ::Unit::DynamicViscosity::PascalSecond>(static_cast<T>(1.5e-3))); "
+     "std::ostringstream os; os << m.JSON() << m.XML() << m.YAML() << m.Print() << c.JSON() << c.XML() << c.YAML() << c.Print() << i.JSON() << i.XML() << i.YAML() << i.Print() "
+     "<< c19::R(m.GetType()) << c19::R(c.GetType()) << c19::R(i.GetType()); return os.str(); }()", False),
+]
+
 NUMERIC = [("float", "f"), ("double", "d"), ("long double", "l")]
 
 
 def includes_for(names):
-    return "\n".join('#include "PhQ/%s.hpp"' % n for n in sorted(set(names) | {"Length"}))
+    out = []
+    for n in sorted(set(names) | {"Length"}):
+        out.append('#include "%s"' % n[1:] if n.startswith("@") else '#include "PhQ/%s.hpp"' % n)
+    return "\n".join(out)
 
 
 def facility_program(fac):
